@@ -497,9 +497,29 @@ package adt
 
 // ---- C05: closedness evidence (the ∀ structure only) ----
 //@ spec func evidenceFor(n *nodeContext, all reqSets, i int, conjuncts []conjunctInfo) bool
+//@ func (*nodeContext).containsDefID
+//@   assumed A-int: containment in the definition-id hierarchy modulo replace ids; memoised, observationally pure
+//@   pure
+//@ spec func directEvidence(n *nodeContext, id defID, conjuncts []conjunctInfo) bool { exists k int :: 0 <= k && k < len(conjuncts) && n.containsDefID(id, conjuncts[k].id) }
+//@ spec func hasSet(a reqSets, id defID) bool { id != 0 && exists k int :: 0 <= k && k < len(a) && a[k].id == id }
+//@ func (reqSets).lookupSet
+//@   loop 0 invariant -1 <= rangeindex && forall k int :: 0 <= k && k <= rangeindex ==> a[k].id != id
+//@   ensures [found] result1 == hasSet(a, id)
+//@   ensures [member] result1 ==> exists k int :: 0 <= k && k < len(a) && a[k].id == id && result0 == a[k]
+//@   assigns nothing
+// The evidence rule for one closed struct. The full rule (embedding scopes,
+// opened conjunctions, replace ids) has no smaller specification than the code
+// and stays definitional (evidenceFor); verified against the body are the two
+// facts the property states for structs without embeddings: a conjunct that
+// belongs to the closed struct is evidence, and without such a conjunct and
+// without an embedding scope there is none.
 //@ func (*nodeContext).hasEvidenceForOne
-//@   assumed A-int: the evidence computation itself (containsDefID, embed scopes, replace ids) has no smaller specification than the property; only its use is verified
-//@   ensures result == evidenceFor(n, all, i, conjuncts)
+//@   requires n != nil && i < len(all)
+//@   loop 0 invariant -1 <= rangeindex && forall k int :: 0 <= k && k <= rangeindex ==> !n.containsDefID(all[i].id, conjuncts[k].id)
+//@   ensures_assumed result == evidenceFor(n, all, i, conjuncts)
+//@   ensures [direct] directEvidence(n, all[i].id, conjuncts) ==> result
+//@   ensures [flat] !directEvidence(n, all[i].id, conjuncts) && !hasSet(all, all[i].embed) ==> !result
+//@   nocheck frame
 //@ func (*nodeContext).Logf
 //@   assumed A-int: debug logging
 
